@@ -14,6 +14,9 @@
 //	            limits, load the SAME Program (also run under -race)
 //	isolation   what runtime A evaluates / defines / mutates / configures is
 //	            invisible to runtimes B created before, during and after
+//	sweep       every exported function of every package applied to values
+//	            obtained from a literal, result fed to the in-place builtins
+//	            (sweep_test.go; oracle = literal)
 package c09
 
 import (
@@ -650,6 +653,15 @@ func checkLiteral(c LitCase, ctx *vcommon.Ctx) *vcommon.Failure {
 	} else {
 		ctx.Class("outcome/mutation-value")
 	}
+	calls := 0
+	for _, e := range rt.Trace {
+		if e.Tag == "\"call\"" {
+			calls++
+		}
+	}
+	if calls > 0 {
+		ctx.Class("sweep-call-returned-a-value")
+	}
 	// every time the mutation program itself looked at (lit) it saw the literal
 	for _, e := range rt.Trace {
 		if e.Tag == "\"final\"" || strings.HasPrefix(e.Tag, "\"obs") {
@@ -688,10 +700,11 @@ func checkLiteral(c LitCase, ctx *vcommon.Ctx) *vcommon.Failure {
 
 func TestCheck(t *testing.T) {
 	vcommon.Main(t, "C09",
-		vcommon.S("loads", 8000, 160000, genTargeted(8, false), checkLoads),
+		vcommon.S("loads", 8000, 120000, genTargeted(8, false), checkLoads),
 		vcommon.S("general", 2000, 40000, genGeneral(), checkLoads),
-		vcommon.S("literal", 12000, 240000, genLiteral(), checkLiteral),
-		vcommon.S("concurrent", 1600, 12000, genTargeted(5, true), checkConcurrent),
+		vcommon.S("literal", 12000, 200000, genLiteral(), checkLiteral),
+		vcommon.S("concurrent", 1600, 24000, genTargeted(5, true), checkConcurrent),
 		vcommon.S("isolation", 2400, 48000, genIso(), checkIso),
+		vcommon.S("sweep", 8000, 160000, genSweep(), checkLiteral),
 	)
 }
